@@ -64,6 +64,8 @@ structure Wrapper where
   /-- the statement shapes (callback, wrapper, argument list, binders) are the ones this model was
   written against -/
   structural : Bool
+  /-- the wrapper's control skeleton (`Juniper.Gen.SkeletonPar`) is the one this model was written against -/
+  skeleton : Bool
 
 def Wrapper.code (w : Wrapper) : Code := calleeCode w.callee
 
@@ -86,6 +88,8 @@ def mapWrapper : Wrapper where
       && ParDoFacts.mapCbParams == ["i"]
       && ParDoFacts.mapCbShape == ["out[#w]=f(in[#r])"]
       && ParDoFacts.mapStmts == ["out:=make([]U,len(in))", "Do(parallelism,len(in),<cb>)", "returnout"]
+  -- allocate, `Do(…, func(i) { out[i] = f(in[i]) })`, `return out`
+  skeleton := decide (SkeletonPar.pskelMap = ["define", "call{assign}", "return"])
 
 /-- `parallel.MapContext` as it is in the source now. -/
 def mapContextWrapper : Wrapper where
@@ -107,6 +111,9 @@ def mapContextWrapper : Wrapper where
       && ParDoFacts.mcCbShape == ["varerrerror", "out[#w],err=f(#c,in[#r])", "returnerr"]
       && ParDoFacts.mcStmts == ["out:=make([]U,len(in))", "err:=DoContext(ctx,parallelism,len(in),<cb>)",
             "iferr!=nil{", "returnnil,err", "}", "returnout,nil"]
+  -- allocate, `err := DoContext(…, func … { var err error; out[i], err = …; return err })`,
+  -- `if err != nil { return nil, err }`, `return out, nil`
+  skeleton := decide (SkeletonPar.pskelMapContext = ["define", "define{decl;assign;return}", "if{return}", "return"])
 
 /-- What the proofs need to know about a wrapper (`ctx` = the callee takes a context). Discharged for
 `mapWrapper` / `mapContextWrapper` from the regenerated definitions inside every property theorem
@@ -124,6 +131,7 @@ structure Wrapper.Sound (w : Wrapper) (ctx : Bool) : Prop where
   retErr : ctx = true → w.retErr = ["nil", "err"]
   retOk : w.retOk = if ctx then ["out", "nil"] else ["out"]
   structural : w.structural = true
+  skeleton : w.skeleton = true
 
 structure WCfg (α : Type) where
   w : Wrapper
